@@ -6,7 +6,7 @@
 //! it, in a serving repository whose namespaces carry one tamper each (see `fetchfix.rs`).
 //!
 //! Space: `Π_ns tamper(ns)` × (clone | pull-from-v1 | pull-from-v2) × announced `refs_at`
-//! (absent | honest tips of all / one / no namespace | stale generation-1 oids | oids unknown to
+//! (absent | honest tips of all / one / no namespace | stale generation-1 / generation-2 oids | oids unknown to
 //! the server; pulls only) × scope (All | Followed) × serving peer (delegate | non-delegate owner |
 //! not an owner). The fetcher's prior state is the product of real honest fetches.
 //!
@@ -55,6 +55,8 @@ enum RefsAtKind {
     Empty,
     /// the generation-1 oid of every namespace (an announcement that is older than the server)
     Stale,
+    /// the generation-2 oid of every namespace (older than the server for the hand-written tips)
+    StaleV2,
     /// an oid that exists nowhere, for every namespace
     Unknown,
 }
@@ -67,15 +69,8 @@ impl RefsAtKind {
             RefsAtKind::TipsOnly(k) => format!("tips-only-{k}"),
             RefsAtKind::Empty => "empty".into(),
             RefsAtKind::Stale => "stale-v1".into(),
+            RefsAtKind::StaleV2 => "stale-v2".into(),
             RefsAtKind::Unknown => "unknown-oid".into(),
-        }
-    }
-    fn class(&self) -> &'static str {
-        match self {
-            RefsAtKind::None => "none",
-            RefsAtKind::Tips | RefsAtKind::TipsOnly(_) | RefsAtKind::Empty => "tips",
-            RefsAtKind::Stale => "stale-v1",
-            RefsAtKind::Unknown => "unknown-oid",
         }
     }
     fn parse(s: &str) -> RefsAtKind {
@@ -84,6 +79,7 @@ impl RefsAtKind {
             "tips" => RefsAtKind::Tips,
             "empty" => RefsAtKind::Empty,
             "stale-v1" => RefsAtKind::Stale,
+            "stale-v2" => RefsAtKind::StaleV2,
             "unknown-oid" => RefsAtKind::Unknown,
             o => match o.strip_prefix("tips-only-").and_then(|k| k.parse().ok()) {
                 Some(k) => RefsAtKind::TipsOnly(k),
@@ -217,15 +213,19 @@ fn space(thorough: bool) -> Space {
     let full = ALPHABET.to_vec();
     if !thorough {
         // d1 (delegate) × n1 (non-delegate)
-        return Space { families: vec![Family::new(vec![full.clone(), full], pulls(&[RefsAtKind::None, RefsAtKind::Tips, RefsAtKind::Stale]), vec![Scope::All], vec![D1])] };
+        return Space { families: vec![Family::new(vec![full.clone(), full], pulls(&[RefsAtKind::None, RefsAtKind::Tips, RefsAtKind::Stale, RefsAtKind::StaleV2]), vec![Scope::All], vec![D1])] };
     }
     // owners: d1, d2 (delegates, threshold 1), n1
-    let kinds = [RefsAtKind::None, RefsAtKind::Tips, RefsAtKind::TipsOnly(0), RefsAtKind::TipsOnly(1), RefsAtKind::TipsOnly(2), RefsAtKind::Empty, RefsAtKind::Stale, RefsAtKind::Unknown];
+    // (announcing d2 only is symmetric to announcing d1 only and is omitted)
+    let kinds = [RefsAtKind::None, RefsAtKind::Tips, RefsAtKind::TipsOnly(0), RefsAtKind::TipsOnly(2), RefsAtKind::Empty, RefsAtKind::Stale, RefsAtKind::StaleV2, RefsAtKind::Unknown];
+    // d2 skips the three refdb-only deviations (they are enumerated on d1 and n1)
+    let second: Vec<Tamper> = full.iter().copied().filter(|t| !matches!(t, Tamper::ExtraUnsignedRef | Tamper::RefMoved | Tamper::SignedRefMissing)).collect();
+    let some = vec![Tamper::Honest, Tamper::SigrefsMissing, Tamper::BadSignature, Tamper::OddCategory, Tamper::Diverged];
     let few = vec![(Mode::Clone, RefsAtKind::None), (Mode::PullV1, RefsAtKind::None), (Mode::PullV2, RefsAtKind::None), (Mode::PullV2, RefsAtKind::Tips)];
     Space {
         families: vec![
-            Family::new(vec![full.clone(), full.clone(), full.clone()], pulls(&kinds), vec![Scope::All], vec![D1]),
-            Family::new(vec![full.clone(), full.clone(), full.clone()], vec![(Mode::Clone, RefsAtKind::None), (Mode::PullV1, RefsAtKind::None), (Mode::PullV2, RefsAtKind::None)], vec![Scope::FollowedOthers], vec![D1]),
+            Family::new(vec![full.clone(), second.clone(), full.clone()], pulls(&kinds), vec![Scope::All], vec![D1]),
+            Family::new(vec![full.clone(), full.clone(), some], vec![(Mode::Clone, RefsAtKind::None), (Mode::PullV1, RefsAtKind::None), (Mode::PullV2, RefsAtKind::None)], vec![Scope::FollowedOthers], vec![D1]),
             Family::new(vec![full.clone(), full.clone(), vec![Tamper::Honest, Tamper::ExtraUnsignedRef, Tamper::BadSignature]], few.clone(), vec![Scope::FollowedNone], vec![D1]),
             Family::new(vec![full.clone(), vec![Tamper::Honest], full.clone()], few, vec![Scope::All], vec![N1, OUTSIDER]),
         ],
@@ -243,6 +243,7 @@ fn refs_at_of(fx: &Fixture, item: &Item) -> Option<Vec<RefsAt>> {
         RefsAtKind::TipsOnly(k) => Some(tip(k).into_iter().collect()),
         RefsAtKind::Empty => Some(vec![]),
         RefsAtKind::Stale => Some(fx.owners.iter().map(|o| RefsAt { remote: o.key, at: o.s1.into() }).collect()),
+        RefsAtKind::StaleV2 => Some(fx.owners.iter().map(|o| RefsAt { remote: o.key, at: o.s2.into() }).collect()),
         RefsAtKind::Unknown => Some(fx.owners.iter().map(|o| RefsAt { remote: o.key, at: o.nowhere.into() }).collect()),
     }
 }
@@ -312,7 +313,11 @@ fn run_item(fx: &Fixture, item: &Item, seed: u64) -> Judged {
     let run = fetch(fx, &FetchSpec { mode: item.mode, prior, refs_at: refs_at_of(fx, item), allowed, serving: fx.keys.pk(item.serving), server_git: &server_git, fetcher_root: &fetcher_root, keep_discarded_clone: false });
 
     let wit = || item_json(fx, item, seed);
-    let ctx = format!("{}/{}", item.mode.name(), item.refs_at.class());
+    let ctx = if item.mode == Mode::Clone { "clone" } else { "pull" };
+    // An announcement of the honest generation-1 / generation-2 commit offers the fetcher a valid,
+    // deliverable rad/sigrefs next to whatever the refdb advertises: nothing is "built invalid" then.
+    let valid_alternative_announced = matches!(item.refs_at, RefsAtKind::Stale | RefsAtKind::StaleV2);
+    let announced = refs_at_of(fx, item).unwrap_or_default();
     let mut vs = vec![];
     let mut effects = vec![];
     let empty = BTreeMap::new();
@@ -332,11 +337,12 @@ fn run_item(fx: &Fixture, item: &Item, seed: u64) -> Judged {
         changed_count += 1;
         let who = owner.map(|o| o.name()).unwrap_or("?");
         let describe = |what: String| format!("{what} [namespace of {who} ({role}), offered as {tamper}; {} with refs_at {}; fetch returned {}]", item.mode.name(), item.refs_at.name(), run.result.label());
-        let mut push = |clause: &str, what: String| vs.push(Violation::new(format!("C01/{clause}/{role}/{tamper}/{ctx}"), describe(what), wit()).cost(cost(item)));
+        let mk = |clause: &str, what: String| Violation::new(format!("C01/{clause}/{ctx}"), describe(what), wit()).cost(cost(item));
+        let by_tamper = format!("{role}/{tamper}");
         // (a)–(c) on the namespace as it now is
         let Some(sig_oid) = post.get(SIGREFS) else {
             let created: Vec<&String> = post.keys().filter(|k| pre.get(*k) != post.get(*k)).collect();
-            push("changed-namespace-has-no-sigrefs", format!("the fetch changed refs {created:?} of a namespace that has no rad/sigrefs afterwards"));
+            vs.push(mk(&format!("changed-namespace-has-no-sigrefs/{by_tamper}"), format!("the fetch changed refs {created:?} of a namespace that has no rad/sigrefs afterwards")));
             continue;
         };
         let blobs = (|| -> Result<(Vec<u8>, Vec<u8>), String> {
@@ -351,14 +357,14 @@ fn run_item(fx: &Fixture, item: &Item, seed: u64) -> Judged {
         let (refs_blob, sig_blob) = match blobs {
             Ok(b) => b,
             Err(e) => {
-                push("sigrefs-unreadable", format!("rad/sigrefs {sig_oid} of a changed namespace cannot be read: {e}"));
+                vs.push(mk(&format!("sigrefs-unreadable/{by_tamper}"), format!("rad/sigrefs {sig_oid} of a changed namespace cannot be read: {e}")));
                 continue;
             }
         };
         let signed = match parse_refs_blob(&refs_blob) {
             Ok(s) => s,
             Err(e) => {
-                push("sigrefs-unreadable", format!("refs blob of rad/sigrefs {sig_oid} does not parse: {e}"));
+                vs.push(mk(&format!("sigrefs-unreadable/{by_tamper}"), format!("refs blob of rad/sigrefs {sig_oid} does not parse: {e}")));
                 continue;
             }
         };
@@ -369,17 +375,41 @@ fn run_item(fx: &Fixture, item: &Item, seed: u64) -> Judged {
             let extra: Vec<&String> = have.keys().filter(|k| !want.contains_key(*k)).collect();
             let missing: Vec<&String> = want.keys().filter(|k| !have.contains_key(*k)).collect();
             let moved: Vec<&String> = have.keys().filter(|k| want.get(*k).is_some_and(|w| w != &have[*k])).collect();
-            let mut shape = vec![];
-            if !extra.is_empty() {
-                shape.push("unsigned-ref-present");
-            }
-            if !missing.is_empty() {
-                shape.push("signed-ref-absent");
-            }
-            if !moved.is_empty() {
-                shape.push("ref-off-signed-target");
-            }
-            push(&format!("refs-differ-from-signed/{}", shape.join("+")), format!("after the fetch the namespace differs from its signed refs at {sig_oid}: not signed {extra:?}, signed but absent {missing:?}, pointing elsewhere {moved:?}"));
+            // Abstract shape of the inconsistency: where does the rad/sigrefs now in place come
+            // from, and which signed-refs commit do the data refs now in place correspond to?
+            let offered_tip = owner.and_then(|o| o.offered_tip(item.tampers[fx.owners.iter().position(|x| x.slot == o.slot).unwrap()])).map(|o| o.to_string());
+            let announced_oid = owner.and_then(|o| announced.iter().find(|r| r.remote == o.key)).map(|r| r.at.to_string());
+            let pre_sig = pre.get(SIGREFS).cloned();
+            let content_of = |oid: &Option<String>| -> Option<BTreeMap<String, String>> {
+                let c = raw.find_commit(oid_of(oid.as_ref()?)).ok()?;
+                let e = c.tree().ok()?;
+                let b = raw.find_blob(e.get_name("refs")?.id()).ok()?;
+                Some(parse_refs_blob(b.content()).ok()?.into_iter().map(|(k, v)| (k, v.to_string())).collect())
+            };
+            let sig_src = if Some(sig_oid) == offered_tip.as_ref() {
+                "offered-tip"
+            } else if Some(sig_oid) == announced_oid.as_ref() {
+                "announced-oid"
+            } else if Some(sig_oid) == pre_sig.as_ref() {
+                "kept"
+            } else {
+                "other"
+            };
+            let data_src = if content_of(&offered_tip).as_ref() == Some(&have) {
+                "of-offered-tip"
+            } else if content_of(&announced_oid).as_ref() == Some(&have) {
+                "of-announced-oid"
+            } else if content_of(&pre_sig).as_ref() == Some(&have) {
+                "kept"
+            } else {
+                "mixed"
+            };
+            let ann = match (&announced_oid, &offered_tip) {
+                (None, _) => "none",
+                (Some(a), Some(o)) if a == o => "offered-tip",
+                _ => "other-than-offered-tip",
+            };
+            vs.push(Violation::new(format!("C01/refs-differ-from-signed/{role}/announced-{ann}/sigrefs-{sig_src}/data-refs-{data_src}"), describe(format!("after the fetch the namespace differs from its signed refs at {sig_oid}: not signed {extra:?}, signed but absent {missing:?}, pointing elsewhere {moved:?}")), wit()).cost(cost(item)));
         }
         // (b)
         let verified = match (pk_of(ns), Signature::try_from(sig_blob.as_slice())) {
@@ -387,14 +417,14 @@ fn run_item(fx: &Fixture, item: &Item, seed: u64) -> Judged {
             _ => false,
         };
         if !verified {
-            push("signature-does-not-verify", format!("the signature blob of rad/sigrefs {sig_oid} does not verify for the namespace key"));
+            vs.push(mk(&format!("signature-does-not-verify/{by_tamper}"), format!("the signature blob of rad/sigrefs {sig_oid} does not verify for the namespace key")));
         }
         // (c)
         if let Some(root) = signed.get("refs/rad/root") {
             let repo = Repository::open(&run.git_dir, fx.rid).unwrap();
             let named: Option<RepoId> = Doc::load_at((*root).into(), &repo).ok().map(|d| RepoId::from(d.blob));
             if named != Some(fx.rid) || *root != fx.identity_root {
-                push("signed-root-names-other-repository", format!("signed refs/rad/root {root} names {named:?}, this repository is {}", fx.rid));
+                vs.push(mk(&format!("signed-root-names-other-repository/{by_tamper}"), format!("signed refs/rad/root {root} names {named:?}, this repository is {}", fx.rid)));
             }
         }
     }
@@ -404,7 +434,7 @@ fn run_item(fx: &Fixture, item: &Item, seed: u64) -> Judged {
         let role = if o.is_delegate { "delegate" } else { "non-delegate" };
         let t = item.tampers[k];
         effects.push((role.to_string(), t.name(), pre != post));
-        if built_invalid(t) && pre != post {
+        if built_invalid(t) && !valid_alternative_announced && pre != post {
             let diff: Vec<String> = pre.keys().chain(post.keys()).filter(|r| pre.get(*r) != post.get(*r)).map(|r| format!("{r}: {:?} -> {:?}", pre.get(r), post.get(r))).collect::<std::collections::BTreeSet<_>>().into_iter().collect();
             vs.push(
                 Violation::new(
@@ -430,8 +460,9 @@ fn main() {
         let (cfg, item) = item_from_json(&w);
         let seed = w["seed"].as_u64().unwrap_or(ctx.seed);
         let fx = Fixture::build(&cfg, seed);
+        let t0 = std::time::Instant::now();
         let j = run_item(&fx, &item, seed);
-        eprintln!("replay outcome: {}", j.outcome);
+        eprintln!("replay outcome: {} ({:.0} ms for the item)", j.outcome, t0.elapsed().as_secs_f64() * 1e3);
         ctx.finish_replay(j.violations);
     }
 
@@ -485,7 +516,7 @@ fn main() {
             "the git-daemon request line is stripped by the harness as the worker does; timeouts and the wire framing of radicle-node are not part of this check",
             "a clone that returns Err counts as unchanged because the node's worker drops the temporary repository (worker/fetch.rs: `clone(..)?` precedes `mv`)",
             "a serving refdb that deviates from an intact signed-refs commit (extra / moved / missing data ref) is not counted as invalid offered data: data refs are never advertised to the fetcher",
-            "thorough tier omits refs_at naming exactly two of three namespaces",
+            "thorough tier omits refs_at naming exactly two of three namespaces and naming d2 alone (symmetric to d1 alone); in the main family d2 ranges over 10 of the 13 states (not the three refdb-only deviations); under scope Followed{n1} n1 ranges over 5 of the 13 states; the serving-peer family keeps d2 honest",
         ],
         std::mem::take(&mut st.violations),
     );
